@@ -128,6 +128,46 @@ Theorem C07_clone_shared_refuted :
 Proof. exact clone_shared_refuted. Qed.
 Print Assumptions C07_clone_shared_refuted.
 
+(* recorded entries.  contextObserver.Write gives every recorded entry an array of its own: for every
+   program of With and Write steps on any tree of observers (any order, several entries per logger, any
+   append growth policy) every logger's context AND every recorded entry, read in the FINAL heap, is its
+   pure value -- context of its logger ++ its own call-site fields ... *)
+Theorem C07_observer_entries_stable : forall (T : Type) (d : T) (newcap : nat -> nat -> nat),
+  (forall c n, n <= newcap c n) ->
+  forall ops st, ovalid T st ->
+  oreads T (orunw T d newcap (obs_write T) st ops) = prunw T (fst (oreads T st)) (snd (oreads T st)) ops /\
+  ovalid T (orunw T d newcap (obs_write T) st ops).
+Proof. exact observer_entries_stable. Qed.
+Print Assumptions C07_observer_entries_stable.
+(* ... so the entries recorded by [ops1], read again after ANY further operations [ops2] (later entries of
+   the same logger or of any other, later derivations), are what they were when read at once *)
+Theorem C07_observer_entries_reread : forall (T : Type) (d : T) (newcap : nat -> nat -> nat),
+  (forall c n, n <= newcap c n) ->
+  forall ops1 ops2 st, ovalid T st ->
+  firstn (length (ologs T (orunw T d newcap (obs_write T) st ops1)))
+         (snd (oreads T (orunw T d newcap (obs_write T) st (ops1 ++ ops2)))) =
+  snd (oreads T (orunw T d newcap (obs_write T) st ops1)).
+Proof. exact observer_entries_reread. Qed.
+Print Assumptions C07_observer_entries_reread.
+(* the mutation all := append(co.context, fields...) (NOT zap's code): after With(1,2).With(3) -- len 3,
+   cap 4 -- the second entry logged through that logger overwrites the call-site field of the first,
+   although each entry was right when read immediately after its own call *)
+Theorem C07_observer_write_append_refuted :
+  let st := orunw nat 0 double_cap (obs_write_append nat 0 double_cap) ost0 write_witness in
+  snd (oreads nat st) <> snd (prunw nat [[]] [] write_witness) /\
+  snd (oreads nat st) = [[1; 2; 3; 20]; [1; 2; 3; 20]] /\
+  snd (oreads nat (orunw nat 0 double_cap (obs_write_append nat 0 double_cap) ost0 (firstn 3 write_witness))) = [[1; 2; 3; 10]].
+Proof. exact observer_write_append_refuted. Qed.
+Print Assumptions C07_observer_write_append_refuted.
+(* in the operational model and in the specification alike, the end-of-history view of the calls of a
+   program (what every sink holds for them, Model.v [enc_end]) taken after any further operations is
+   their view taken at once: entries are values, nothing logged or derived later rewrites them *)
+Theorem C07_end_view_stable : forall c ops extra nk,
+  firstn (length (run_events c ops)) (map (enc_log_end nk) (run_events c (ops ++ extra))) = map (enc_log_end nk) (run_events c ops) /\
+  firstn (length (spec_events c ops)) (map (enc_log_end nk) (spec_events c (ops ++ extra))) = map (enc_log_end nk) (spec_events c ops).
+Proof. exact end_view_stable. Qed.
+Print Assumptions C07_end_view_stable.
+
 (* WithLazy.  (a) once: an evaluation world, once recorded, never changes;  (b) first use: it is the
    world of the first later operation that uses the context (an enabled call from, or a With /
    WithOptions(Fields) derivation on, a logger holding it — [used_ids]);  (c) with fields that do not
@@ -167,7 +207,9 @@ Theorem C07_disabled_silent : forall m hi nm msg w fs c ch nn, senabled hi c = f
 Proof. exact swalk_disabled. Qed.
 Print Assumptions C07_disabled_silent.
 
-(* the oracle the driver runs is the proved specification *)
+(* the oracle the driver runs is the proved specification: [spec] compares the whole observation -- the
+   per-call part and the end-of-history part (every entry re-read after the whole program) -- with what
+   [spec_events] prescribes *)
 Theorem C07_wire : forall i, wf i = true -> spec i (model i) = true.
 Proof. exact spec_model. Qed.
 Print Assumptions C07_wire.
@@ -212,4 +254,11 @@ Example C07_example_bytes :
   json_line true [x78] [x6d] [FString [x61] [x31]] =
     [x7b;x22;x6c;x65;x76;x65;x6c;x22;x3a;x22;x77;x61;x72;x6e;x22;x2c;x22;x6c;x6f;x67;x67;x65;x72;x22;x3a;x22;x78;x22;x2c;
      x22;x6d;x73;x67;x22;x3a;x22;x6d;x22;x2c;x22;x61;x22;x3a;x22;x31;x22;x7d;x0a].
+Proof. vm_compute. reflexivity. Qed.
+(* the end-of-history view of the example: one element per call, one column per sink; the first call's
+   entry on the observer sink is still the line of logger 4 with its own call-site field c=3 *)
+Example C07_example_end_view :
+  nth 0 (map (enc_log_end 2) (run_events ex_comp ex_ops)) (SL []) =
+    SL [SL [SL [SB (json_line true [] [x6d] [FObject [x72] (Obj [FInt k_w 1] None); FString [x61] [x31]; FStringer [x6c] (OOk [x35]); FString [x63] [x33]])]];
+        SL [SL [SB (json_line true [] [x6d] [FString [x61] [x31]; FStringer [x6c] (OOk [x35]); FString [x63] [x33]])]]].
 Proof. vm_compute. reflexivity. Qed.
